@@ -20,6 +20,7 @@ import Rooc.Proofs.ExpLemmasReflect
 import Rooc.Proofs.ExpLemmasDefined
 import Rooc.Proofs.ExpLemmasStruct
 import Rooc.Proofs.ExpLemmasFull
+import Rooc.Proofs.ExpLemmasSpell
 namespace Rooc.Props.C10
 open Rooc Rooc.Exp Rooc.Sem
 set_option linter.unusedSimpArgs false
@@ -290,6 +291,56 @@ example : collapsesNonbinary (fun _ => false)
       naryKeep, mayBeUndefined, mayBeUndefinedAny, naryFlatten, naryScan, numTruthy]
   · simp [LogicOperands01, LogicOperands01List, Is01, eval]
 
+/-! ## constant spelling
+
+The second half of the property at the level of expressions: the passes that follow (`flatten`, the second
+`simplify`, bound inference since c360e70, the lowering) see a constant only through its simplification. -/
+
+/-- FULL: constant folding is complete — a closed expression (no variable) that has the value `k`
+simplifies to the literal `k`, whatever operators spell it (`1 + 1`, `4 / 2`, `0 - 2`, `abs{-2}`,
+`max{1, 2}`, `not 0`, `2 and 3` …). -/
+theorem constant_folding_complete (ρ : String → K) (c : Exp (Ext K)) (k : K)
+    (hc : isClosed c = true) (hk : eval ρ c = some k) : simplify c = .num (.fin k) :=
+  simplify_closed ρ c hc k hk
+
+/-- FULL: `simplify` is compositional — sub-expressions with the same simplification are interchangeable
+in every context (`subst h · t` plugs the hole `h` of `t`). Any number type. -/
+theorem simplify_context_congr {α : Type} [Arith α] (h : String) (a b t : Exp α)
+    (hab : simplify a = simplify b) : simplify (subst h a t) = simplify (subst h b t) :=
+  simplify_subst_congr h hab t
+
+/-- FULL: two spellings of the same constant give IDENTICAL simplified trees in every context … -/
+theorem respell_simplify (ρ : String → K) (h : String) (t c1 c2 : Exp (Ext K)) (k : K)
+    (h1 : isClosed c1 = true) (h2 : isClosed c2 = true)
+    (e1 : eval ρ c1 = some k) (e2 : eval ρ c2 = some k) :
+    simplify (subst h c1 t) = simplify (subst h c2 t) :=
+  simplify_subst_congr h (by rw [simplify_closed ρ c1 h1 k e1, simplify_closed ρ c2 h2 k e2]) t
+
+/-- … hence identical normalized trees: everything downstream of `normalize` (rows, bounds, acceptance or
+rejection) is literally the same for the two spellings. -/
+theorem respell_normalize (ρ : String → K) (h : String) (t c1 c2 : Exp (Ext K)) (k : K)
+    (h1 : isClosed c1 = true) (h2 : isClosed c2 = true)
+    (e1 : eval ρ c1 = some k) (e2 : eval ρ c2 = some k) :
+    Lin.normalizeExp (subst h c1 t) = Lin.normalizeExp (subst h c2 t) := by
+  unfold Lin.normalizeExp; rw [respell_simplify ρ h t c1 c2 k h1 h2 e1 e2]
+
+/-- non-vacuity: `(0 - 2) * x` and `-2 * x` (the spellings of the repaired finding
+`C10-spelling-dependent-rejection`). -/
+example (ρ : String → K) :
+    Lin.normalizeExp (.bin .mul (.bin .sub (.num (.fin 0)) (.num (.fin 2))) (.var "x") : Exp (Ext K)) =
+    Lin.normalizeExp (.bin .mul (.num (.fin (-2))) (.var "x")) := by
+  have := respell_normalize ρ "c" (.bin .mul (.var "c") (.var "x"))
+    (.bin .sub (.num (.fin 0)) (.num (.fin 2))) (.num (.fin (-2))) (-2)
+    (by simp [isClosed]) (by simp [isClosed]) (by simp [eval, binVal]) (by simp [eval])
+  simpa [subst] using this
+
+/-- spellings that differ by more than a constant (`x * -2` vs `-2 * x`) are not identical after
+`normalize`, only equal in value (`normalize_eval_eq`). -/
+example : simplify (.bin .mul (.var "x") (.num (.fin (-2))) : Exp (Ext K)) ≠
+    simplify (.bin .mul (.num (.fin (-2))) (.var "x")) := by
+  have h : (-2 : K) ≠ 1 := by norm_num
+  simp [simplify, mulCore, isNumEq, h]
+
 /-! ## structural facts about the output (consumed by the linearizer) -/
 
 /-- FULL: `simplify` leaves no `BinOp`-spelled logic node and no `UnOp::Not` — for every input and every
@@ -319,6 +370,19 @@ theorem normalize_andor_normal {α : Type} [Arith α] (e e' : Exp α) (hn : Lin.
   simp only [Option.map_eq_some_iff] at hn
   obtain ⟨e2, _, rfl⟩ := hn
   exact ⟨AONF_of_NF _ (NF_simplify e2), NF_simplify e2⟩
+
+/-- FULL: every foldable constant is folded in the output of `simplify` (any input, any number type): no
+operator node whose operands are all literals — except a division by the literal zero, kept on purpose —,
+no literal-only min/max, and every n-ary and/or node has at least two operands, not all literals. -/
+theorem simplify_constants_folded {α : Type} [Arith α] (e : Exp α) : constFolded (simplify e) = true :=
+  constFolded_simplify e
+
+theorem normalize_constants_folded {α : Type} [Arith α] (e e' : Exp α)
+    (hn : Lin.normalizeExp e = some e') : constFolded e' = true := by
+  unfold Lin.normalizeExp at hn
+  simp only [Option.map_eq_some_iff] at hn
+  obtain ⟨e2, _, rfl⟩ := hn
+  exact constFolded_simplify e2
 
 /-- FULL: `flatten` creates no literal. -/
 theorem flatten_finiteLits (n : Nat) (e e' : Exp (Ext K)) (h : flattenF n e = some e')
